@@ -24,54 +24,100 @@ PREDS = {
 
 def build(uni):
     uni.fields.update({"_line_length": "int"})
+    uni.rfind_uf = True
+    uni.split_light = True
+    uni.merge_const_lookup = True
     uni.preds.update(PREDS)
     lines_ok = uni.uf("lines_ok", ["str", "int"], "bool")
-    uni.consts["lines_ok"] = VFunc("uf", name="lines_ok",
-                                   argtags=["str", "int"], ret="bool")
-    uni.consts["join_prefix"] = VFunc("uf", name="join_prefix",
-                                      argtags=["ref", "int"], ret="str")
     nonl = uni.uf("nonl", ["str"], "bool")
-    uni.consts["nonl"] = VFunc("uf", name="nonl", argtags=["str"],
-                               ret="bool")
-    a, b = z3.Strings("a b")
-    i, n = z3.Ints("i n")
-    lim = z3.Int("lim")
-    nl = z3.StringVal("\n")
-    uni.axioms.append(z3.ForAll([lim], lines_ok(z3.StringVal(""), lim)))
-    for shape in (lambda: z3.Concat(a, b, nl),
-                  lambda: z3.Concat(a, z3.Concat(b, nl)),
-                  lambda: z3.Concat(z3.Concat(a, b), nl)):
-        t = shape()
-        uni.axioms.append(z3.ForAll([a, b, lim], z3.Implies(
-            z3.And(lines_ok(a, lim), nonl(b), z3.Length(b) <= lim),
-            lines_ok(t, lim)), patterns=[lines_ok(t, lim)]))
-    # nonl(s): 's contains no newline' -- closure facts
-    uni.axioms.append(z3.ForAll([a, i, n], z3.Implies(
-        nonl(a), nonl(z3.SubString(a, i, n))),
-        patterns=[nonl(z3.SubString(a, i, n))]))
-    uni.axioms.append(z3.ForAll([a, b], z3.Implies(
-        z3.And(nonl(a), nonl(b)), nonl(z3.Concat(a, b))),
-        patterns=[nonl(z3.Concat(a, b))]))
-    uni.axioms.append(nonl(z3.StringVal("")))
-    info = uni.repo.cls("FortLineLength", LL)
-    import ast as _ast
-    for node in _ast.walk(info.node):
-        if isinstance(node, _ast.Constant) and isinstance(node.value, str) \
-                and len(node.value) < 40 and "\n" not in node.value:
-            uni.axioms.append(nonl(z3.StringVal(node.value)))
+    jp = uni.uf("join_prefix_a", ["arr[str]", "int"], "str")
+    NL = z3.StringVal("\n")
+
+    def parts_of(e):
+        if z3.is_app(e) and e.decl().kind() == z3.Z3_OP_SEQ_CONCAT:
+            out = []
+            for ch in e.children():
+                out.extend(parts_of(ch))
+            return out
+        return [e]
+
+    def inst_nonl(st, e, depth=0):
+        """definitional facts of nonl ('contains no newline') instantiated
+        by the engine at the term at hand (no quantifiers for the solver)"""
+        if z3.is_string_value(e):
+            st.assume(nonl(e) == z3.BoolVal("\n" not in e.as_string()))
+            return
+        if not z3.is_app(e) or depth > 6:
+            return
+        k = e.decl().kind()
+        if k == z3.Z3_OP_UNINTERPRETED and e.num_args() == 0:
+            # a string variable: the definition itself
+            st.assume(nonl(e) == z3.Not(z3.Contains(e, NL)))
+            return
+        if k == z3.Z3_OP_SEQ_CONCAT:
+            ps = parts_of(e)
+            for p in ps:
+                inst_nonl(st, p, depth + 1)
+            st.assume(nonl(e) == z3.And([nonl(p) for p in ps]))
+        elif k == z3.Z3_OP_SEQ_EXTRACT:
+            inst_nonl(st, e.arg(0), depth + 1)
+            st.assume(z3.Implies(nonl(e.arg(0)), nonl(e)))
+
+    def h_nonl(it, args, kw, st, fr):
+        inst_nonl(st, args[0].e)
+        return VBool(nonl(args[0].e))
+
+    def h_lines_ok(it, args, kw, st, fr):
+        x, lim = args[0].e, it.as_int(args[1])
+        ps = parts_of(x)
+        if z3.is_string_value(x) and x.as_string() == "":
+            st.assume(lines_ok(x, lim))
+        elif z3.is_string_value(ps[-1]) and \
+                ps[-1].as_string().endswith("\n"):
+            # (simplify may have merged a literal with the final newline)
+            lastpre = ps[-1].as_string()[:-1]
+            if len(ps) > 1 and not z3.is_string_value(ps[0]):
+                base, mid = ps[0], ps[1:-1]
+            else:
+                base, mid = z3.StringVal(""), ps[:-1]
+                st.assume(lines_ok(base, lim))
+            if lastpre:
+                mid = mid + [z3.StringVal(lastpre)]
+            for m in mid:
+                inst_nonl(st, m)
+            tot = z3.Sum([z3.Length(m) for m in mid]) if mid else \
+                z3.IntVal(0)
+            # lines_ok(a) & nonl(b) & |b| <= L  =>  lines_ok(a + b + '\n')
+            st.assume(z3.Implies(z3.And([lines_ok(base, lim), tot <= lim] +
+                                        [nonl(m) for m in mid]),
+                                 lines_ok(x, lim)))
+        return VBool(lines_ok(x, lim))
+
+    def h_join_prefix(it, args, kw, st, fr):
+        lst, k = args[0], it.as_int(args[1])
+        arr = it.list_items(lst, st)
+        n = it.length(lst, st)
+        st.assume(z3.Implies(z3.And(1 <= k, k <= n),
+                             jp(arr, k) == z3.Concat(jp(arr, k - 1),
+                                                     arr[k - 1], NL)))
+        return VStr(jp(arr, k))
+    from pyvc.values import VStr, VBool
+    uni.consts["lines_ok"] = VFunc("hook", fn=h_lines_ok)
+    uni.consts["nonl"] = VFunc("hook", fn=h_nonl)
+    uni.consts["join_prefix"] = VFunc("hook", fn=h_join_prefix)
     uni.note_assumption(
-        "nonl(s) ('s contains no newline') is an uninterpreted predicate "
-        "with its closure facts: substrings and concatenations of "
-        "newline-free strings are newline-free; the elements of "
-        "s.split('\\n') are newline-free; literal strings without a "
-        "newline are newline-free (checked on the literals of the class)")
+        "nonl(s) ('s contains no newline') is an uninterpreted predicate; "
+        "its defining facts (literal: decided; concatenation: conjunction; "
+        "substring of a newline-free string is newline-free; elements of "
+        "s.split('\\n') are newline-free) are instantiated by the engine at "
+        "the terms that occur")
     uni.note_assumption(
         "lines_ok(s, L) ('s is a sequence of newline-terminated lines of "
-        "length <= L') is an uninterpreted predicate with its two defining "
-        "closure facts: lines_ok('') and lines_ok(a) & no-newline(b) & "
-        "|b|<=L => lines_ok(a+b+'\\n')")
+        "length <= L') is an uninterpreted predicate; its two defining facts "
+        "lines_ok('') and lines_ok(a) & nonl(b) & |b|<=L => "
+        "lines_ok(a+b+'\\n') are instantiated by the engine at the terms "
+        "that occur")
     from pyvc.regex import match_prefix
-    from pyvc.values import VStr, VBool
     import re as _re
     uni.consts["OMP"] = VStr(r"^\s*!\$omp")
     uni.consts["ACC"] = VStr(r"^\s*!\$acc")
@@ -151,8 +197,15 @@ def build(uni):
              f"implies(SHORT_UPTO({SPLIT}, len({SPLIT})), "
              f"result == fortran_in)"),
         ],
-        # KNOWN FINDING: a long line without any break key in the window
-        raises={"InternalError": None}, modifies=[])
+        # the property says 'never fails'; the code raises InternalError for
+        # a long line without a break key in the window (recorded known
+        # finding, replayed on every run).  Everything else is still
+        # demanded: no other exception, and InternalError only when some
+        # line actually has to be wrapped.
+        raises={"InternalError": f"exists(lambda i: 0 <= i and "
+                f"i < len({SPLIT}) and "
+                f"len(at({SPLIT}, i)) > self._line_length)"},
+        modifies=[])
     uni.contracts["FortLineLength.process"] = c
     INV = [("ok", "lines_ok(fortran_out, self._line_length)"),
            ("nl", "fortran_out == '' or fortran_out.endswith('\\n')")]
@@ -169,3 +222,55 @@ def build(uni):
     }
     cs.append(c)
     return cs
+
+
+TRUSTED = [
+    "pyvc VC generator and z3/cvc5 (strings: z3 seq theory, ground goals)",
+    "str.lstrip/rfind/split/slicing models (cross-checked against CPython "
+    "by the bounded run-time contract on the real code)",
+    "regular expressions of _get_line_type translated to z3 regex by "
+    "pyvc/regex.py (re.IGNORECASE on ASCII letters)",
+    "lemma (definition of lines_ok): lines_ok(s+'\\n', L) iff every element "
+    "of s.split('\\n') has length <= L; with it, idempotence "
+    "process(process(x)) == process(x) follows from the two proved "
+    "postconditions 'limit' and 'short_unchanged'",
+    "NOT under a deductive contract: that joining the continuation lines "
+    "gives back the statement text (bounded run-time contract only), and "
+    "the lexical context (comment / character literal) of a break position",
+]
+EXPLANATION = (
+    "find_break_point is verified for every string, window and key list; "
+    "_get_line_type against the free-form/sentinel classification; "
+    "FortLineLength.process for every text and every limit 40..132: all "
+    "output lines within the limit, a text without long lines returned "
+    "unchanged, termination of the wrapping loop, no exception other than "
+    "InternalError and that only when a line has to be wrapped.")
+
+
+def extra(uni, tier, seed):
+    from pyvc.runner import Extra
+    from realise import C18 as R
+    rp = R.search(tier)
+    return [Extra("bounded#process-runtime-contract", not rp["confirmed"],
+                  detail=str(rp)[:300], kind="bounded run-time contract on "
+                  "the real FortLineLength (content preservation, "
+                  "idempotence, classification, limit)", replay=rp,
+                  count=rp["cases"], bounded=True,
+                  samples=[{"line": "call sub(arg1, arg2, arg3)",
+                            "limits": "40,41,60,132"}])]
+
+
+def replay(name, ob, model, uni):
+    from realise import C18 as R
+    rp = R.search("thorough")
+    rp["obligation"] = name
+    return rp
+
+
+def replay_known(k, uni):
+    from realise import C18 as R
+    if k.get("id") == "nokey":
+        return R.known_nokey()
+    if k.get("id") == "trailing-comment":
+        return R.known_trailing_comment()
+    return None
